@@ -23,7 +23,8 @@ impl Property for C06 {
     }
     fn generate(&self, g: &mut SplitMix, k: &mut SplitMix, _tier: Tier) -> (Knobs, Value) {
         let knobs = Knobs::draw(k);
-        let mut w = graph::generate(g, &graph::GenOpts { helpers: false, single_entry_rounds: false, max_rounds: 5 });
+        let helpers = g.chance(1, 3);
+        let mut w = graph::generate(g, &graph::GenOpts { helpers, single_entry_rounds: false, max_rounds: 5 });
         w.static_mode = false;
         (knobs, serde_json::to_value(w).unwrap())
     }
